@@ -1001,6 +1001,10 @@ func (w *World) execNext(fr *Frame, st *State, ins *ssa.Next) {
 	if !ok || w.ranges[rg] == nil {
 		unsupported("next on unknown iterator in %s", fr.fn.Name())
 	}
+	if fv, ok := w.forcedNext[ins]; ok {
+		fr.vals[ins] = fv
+		return
+	}
 	rs := w.ranges[rg]
 	ks, vs := w.sortOf(rs.mapT.Key()), w.sortOf(rs.mapT.Elem())
 	dk, vk := w.mapKeys(ks, vs)
